@@ -273,22 +273,22 @@ inductive Loaded
   | ok (v : Bytes)
 deriving DecidableEq, Repr
 
+/-- the bytes of the segments are at hand: compare (when the loader does), then decode -/
+def loadParts (C : Codecs) (k : Checks) (kind : SegKind) (parts : List (MSeg × Bytes)) : Except Err Loaded :=
+  if k.compared kind ∧ parts.any (fun p => C.H p.2 ≠ p.1.checksum) then
+    (if kind.swallowed then .ok .fallback else .error .segChecksum)
+  else match C.view kind (parts.flatMap (·.2)) with
+    | some v => .ok (.ok v)
+    | none => if kind.swallowed then .ok .fallback else .error .seg
+
 /-- load one segment kind the way its loader does.  All manifests of the kind are read and handed
     to the decoder together (the Tantivy directory consists of several embedded files). -/
 def loadKind (C : Codecs) (k : Checks) (file : Bytes) (t : MToc) (kind : SegKind) : Except Err Loaded :=
   let segs := t.segs.filter (fun s => s.kind = kind ∧ s.len > 0)
   if segs.isEmpty then .ok .absent
-  else
-    let parts := segs.map (fun s => (s, readRange file s.off s.len))
-    if parts.any (fun p => p.2.isNone) then
-      (if kind.swallowed then .ok .fallback else .error .io)
-    else
-      let bytes := parts.map (fun p => (p.1, p.2.getD []))
-      if k.compared kind ∧ bytes.any (fun p => C.H p.2 ≠ p.1.checksum) then
-        (if kind.swallowed then .ok .fallback else .error .segChecksum)
-      else match C.view kind (bytes.flatMap (·.2)) with
-        | some v => .ok (.ok v)
-        | none => if kind.swallowed then .ok .fallback else .error .seg
+  else match segs.mapM (fun s => (readRange file s.off s.len).map (fun b => (s, b))) with
+    | none => if kind.swallowed then .ok .fallback else .error .io
+    | some parts => loadParts C k kind parts
 
 /-- `materialize_tantivy_segments`: a Tantivy segment that ends past the file or past the TOC offset
     makes `align_footer_with_catalog` move the footer to the end of the catalog and REWRITE the TOC
@@ -509,21 +509,30 @@ deriving DecidableEq, Repr
     Checks of the code before the repair: time index decodes, (legacy) lex and vec indexes "decode"
     (failures are swallowed by the loaders, so these two never fail), no pending WAL record, frame
     count.  The repair adds the payload pass and the segment checksum pass. -/
+def timeOk (C : Codecs) (k : Checks) (h : Handle) : Bool :=
+  match timeIndex C k h with
+  | .ok _ => true
+  | .error _ => false
+
+def walOk (C : Codecs) (file : Bytes) (h : Handle) : Bool :=
+  match walScan C.H file h.hdr with
+  | .ok rs => (pending h.hdr rs).isEmpty
+  | .error _ => false
+
+/-- the payload pass of the repaired `verify(deep)`: `read_frame_payload_bytes` of every active frame -/
+def payloadOk (C : Codecs) (k : Checks) (h : Handle) : Bool :=
+  (h.toc.frames.filter (fun f => f.active && decide (f.len > 0))).all (fun f => (readRaw C k h f).toOption.isSome)
+
+/-- the segment pass of the repaired `verify(deep)`: every embedded segment hashes to its manifest's checksum -/
+def segOk (C : Codecs) (file : Bytes) (h : Handle) : Bool :=
+  (h.toc.segs.filter (fun s => decide (s.len > 0))).all (fun s =>
+    match readRange file s.off s.len with
+    | some b => decide (C.H b = s.checksum)
+    | none => false)
+
 def verifyChecks (C : Codecs) (k : Checks) (file : Bytes) (h : Handle) : Verdict :=
-  let timeOk := match timeIndex C k h with
-    | .ok _ => true
-    | .error _ => false
-  let walOk := match walScan C.H file h.hdr with
-    | .ok rs => (pending h.hdr rs).isEmpty
-    | .error _ => false
-  let payloadOk := !k.verifyPayload ||
-    (h.toc.frames.filter (fun f => f.active && decide (f.len > 0))).all (fun f => (readRaw C k h f).toOption.isSome)
-  let segOk := !k.verifySegments ||
-    (h.toc.segs.filter (fun s => decide (s.len > 0))).all (fun s =>
-      match readRange file s.off s.len with
-      | some b => decide (C.H b = s.checksum)
-      | none => false)
-  if timeOk && walOk && payloadOk && segOk then .passed else .failed
+  if timeOk C k h && walOk C file h && (!k.verifyPayload || payloadOk C k h) && (!k.verifySegments || segOk C file h)
+  then .passed else .failed
 
 def verify (C : Codecs) (k : Checks) (file : Bytes) : Except Err Verdict :=
   match openRO C k file with
